@@ -488,6 +488,14 @@ Error RACFGBuilder::on_instruction(InstNode* inst, InstControlFlow& cf, RAInstBu
       InstSameRegHint same_reg_hint = InstSameRegHint::kNone;
       if (single_reg_ops == operands.size()) {
         same_reg_hint = inst_info.same_reg_hint();
+
+        // The read-only hint describes the accessed part of the register only. If the instruction zero extends the
+        // destination into the rest of the virtual register (`and eax, eax` with a 64-bit virtual register) it's a write.
+        if (same_reg_hint == InstSameRegHint::kRO) {
+          if (ib[0]->work_reg()->reg_byte_mask() & rw_info.operand(0).extend_byte_mask()) {
+            same_reg_hint = InstSameRegHint::kNone;
+          }
+        }
       }
       else if (operands.size() == 2 && operands[1].is_imm()) {
         // Handle some tricks used by X86 asm.
